@@ -758,7 +758,19 @@ func (w *ethWorld) afterRecv(tx *ethTx, ok bool, log string, pre, post map[strin
 		// read the root the client held before the (failed) tx: unchanged, so the current read is fine
 	}
 	heightOK := tx.height <= head && head-tx.height >= w.delay && have
-	proofOK := have && verifyEthProof(common.BytesToHash(c.GetRoot()), w.contract, slotFor(tx.pkt.path), tx.pkt.hash, tx.proof)
+	// the root a proof has to be checked against is the state root of the header the client follows at that
+	// height (the head's ancestor), whatever the store holds there
+	var root common.Hash
+	if have {
+		root = common.BytesToHash(c.GetRoot())
+	}
+	for n := w.head; n != nil && have; n = n.parent {
+		if n.h.Number.Uint64() == tx.height {
+			root = n.h.Root
+			break
+		}
+	}
+	proofOK := have && verifyEthProof(root, w.contract, slotFor(tx.pkt.path), tx.pkt.hash, tx.proof)
 	want := heightOK && proofOK
 	w.rec.Logf("tx recv ok=%v want=%v (heightOK=%v proofOK=%v) %s", ok, want, heightOK, proofOK, tx.desc)
 	if ok {
